@@ -7,6 +7,7 @@
 //! crate (built from /repo's working tree) does on the case's input.
 
 mod common;
+mod c12;
 mod c13;
 
 use common::*;
@@ -26,6 +27,7 @@ fn main() {
     let mut em = Emitter::new(shard, nshards);
     let mut rng = Rng::new(seed);
     match prop {
+        "C12" => c12::run(&mut em, &mut rng, thorough),
         "C13" => c13::run(&mut em, &mut rng, thorough),
         _ => { eprintln!("unknown property {}", prop); std::process::exit(2); }
     }
